@@ -209,10 +209,45 @@ pub fn all() -> Vec<Prop> {
             },
         },
         Prop {
+            id: "C13",
+            level: "fault_enumeration",
+            rule: "benign population: one evaluation = one encrypted session (real noise::Stream on both ends of a SimPipe pair) with generated write/flush/shutdown scripts in both directions (sizes 0..1 MB incl. 65519/65520/65521/131040), reader buffer sizes 1..300000, and pipes that fragment, return spurious Pending and exert back-pressure; tamper population: for a base session every (ciphertext frame x tamper kind) pair is enumerated through a relay - 11 kinds: bit flip in length/body/tag, truncation inside/at a frame boundary, drop, duplicate, swap with next, replay of an earlier frame, splice from another session, inserted empty frame; non-trivial = bytes were written (benign) / at least two transport frames (tamper); distinct = distinct event-log fingerprint",
+            batches: |t| vec![
+                Batch { engine: "pipe", mode: "noise", runs: if t == "thorough" { 40_000 } else { 1200 } },
+                Batch { engine: "pipe", mode: "noise-tamper", runs: if t == "thorough" { 1500 } else { 24 } },
+            ],
+            expected_probes: || vec!["full_size_frame", "fragmented_both_ways", "tampering_detected_as_error"],
+            components: || json!({
+                "real": ["network::noise::Stream (handshake, frame reassembly, encrypt/decrypt, buffers) via hook H4", "snow (Noise NN, ChaChaPoly)", "tokio::io::split"],
+                "stub": ["transport (SimPipe: seeded short reads/writes, spurious Pending, capacity)", "tampering relay", "scheduler choice"],
+                "absent": ["TCP, preface"]
+            }),
+            assumptions: || vec![
+                "snow's ephemeral keys come from the OS RNG: ciphertext differs between runs, lengths and plaintext do not; logs contain lengths and plaintext only",
+                "tamper enumeration is exhaustive per base run over (frame, kind); byte position inside a frame is one representative per kind",
+            ],
+        },
+        Prop {
+            id: "C14",
+            level: "exploration",
+            rule: "one evaluation = two real Mux endpoints over a SimPipe pair with random capability sets, unequal stream limits (0-4, some capabilities one-sided), tiny frame/buffer/frame-count limits, and 1-3 application workers per queue opening / accepting streams, writing self-describing data in chunks with flushes, reading completely, slowly, partially or not at all; oracles: pairing bijection, in-order complete data, EOS only after the counterpart closed, held streams <= min(limits), unconsumed payload <= read_buffer_size at every step; non-trivial = at least two stream uses; distinct = distinct event-log fingerprint",
+            batches: |t| vec![Batch { engine: "pipe", mode: "mux", runs: if t == "thorough" { 60_000 } else { 1500 } }],
+            expected_probes: || vec!["read_buffer_filled_to_the_limit"],
+            components: || json!({
+                "real": ["network::mux (Mux::run, handshake, reusable / transient streams, StreamQueue, permits) via hook H4", "network::frame", "concurrency (scope, limiter, channels, ExclusiveLock)"],
+                "stub": ["transport (SimPipe)", "applications (generated worker scripts)", "clock, scheduler choice"],
+                "absent": ["noise, rpc layer (separate checks)", "peers that ignore flow control at the frame level (covered under C10 byte-level robustness when built)"]
+            }),
+            assumptions: || vec![
+                "the buffer bound is checked in the population where readers read to end-of-stream and opens are not abandoned (data addressed to an abandoned stream is discarded by the mux, which the application-level accounting cannot see)",
+                "interleavings at await-point granularity",
+            ],
+        },
+        Prop {
             id: "C10",
             level: "exploration",
             rule: "message level (E1): one evaluation = one simulated cluster execution in which Byzantine validators send well-signed consensus messages including absurd field values; a panic anywhere in code under test is a violation; non-trivial = at least one Byzantine message was delivered and at least one block committed; distinct = distinct event-log fingerprint",
-            batches: |t| bft_batches(&[("faultfree", 16), ("byzheavy", 160)], &[("faultfree", 100), ("byzheavy", 4000)], t),
+            batches: |t| bft_batches(&[("faultfree", 16), ("byzheavy", 160), ("stops", 120)], &[("faultfree", 100), ("byzheavy", 4000), ("stops", 3000)], t),
             expected_probes: || vec![],
             components: bft_components,
             assumptions: bft_assumptions,
@@ -240,6 +275,12 @@ fn bft_case(mode: &str, seed: u64) -> (bft::Cfg, Vec<bft::Action>, bft::RunOpts)
             cfg.faults.byz = cfg.faults.byz.max(20);
         }
     }
+    let stops = mode == "stops";
+    if stops {
+        cfg.faults.short_steps = cfg.faults.short_steps.max(25);
+        cfg.faults.crash = 0;
+        cfg.faults.crash_in_write = 0;
+    }
     if mode == "crashy" {
         // Crash-heavy population for C03.
         cfg.faults.crash = cfg.faults.crash.max(4);
@@ -251,6 +292,20 @@ fn bft_case(mode: &str, seed: u64) -> (bft::Cfg, Vec<bft::Action>, bft::RunOpts)
         cfg.faults.crash_in_write = 0;
     }
     let mut plan = bft::gen_plan(&cfg);
+    if stops {
+        // Graceful stops (context cancellation, as on operator stop or at the end of an epoch) in
+        // the middle of message processing, each followed by a restart.
+        let mut rng = crate::kit::stream(seed, "stops");
+        let n = cfg.weights.len() as u32;
+        for _ in 0..rand::Rng::gen_range(&mut rng, 3..9) {
+            let at = rand::Rng::gen_range(&mut rng, 0..plan.len().max(1));
+            let node = rand::Rng::gen_range(&mut rng, 0..n);
+            plan.insert(at, bft::Action::Stop { node });
+            plan.insert(at + 1, bft::Action::Run { steps: rand::Rng::gen_range(&mut rng, 1..6) });
+            let back = (at + 2 + rand::Rng::gen_range(&mut rng, 2..40)).min(plan.len());
+            plan.insert(back, bft::Action::Restart { node });
+        }
+    }
     if mode == "flood" {
         // Half of the Byzantine actions become floods.
         let mut rng = crate::kit::stream(seed, "flood");
@@ -311,6 +366,7 @@ pub fn run_case(engine: &str, mode: &str, seed: u64, keep_log: bool, focus: &str
             bft_result(mode, &cfg, &out)
         }
         "prim" => crate::prim::run_case(mode, seed, keep_log).0,
+        "pipe" => crate::pipes::run_case(mode, seed, keep_log).0,
         _ => panic!("unknown engine {engine}"),
     }
 }
@@ -324,6 +380,7 @@ pub fn run_case_logged(engine: &str, mode: &str, seed: u64) -> (CaseResult, Vec<
             (bft_result(mode, &cfg, &out), out.log)
         }
         "prim" => crate::prim::run_case(mode, seed, true),
+        "pipe" => crate::pipes::run_case(mode, seed, true),
         _ => panic!("unknown engine {engine}"),
     }
 }
@@ -339,6 +396,10 @@ pub fn write_replay(engine: &str, mode: &str, seed: u64, prop: &str, r: &CaseRes
         // Primitive scenarios are a pure function of (mode, seed); the trace is attached.
         "prim" => {
             let (_, log) = crate::prim::run_case(mode, seed, true);
+            json!({"trace": log})
+        }
+        "pipe" => {
+            let (_, log) = crate::pipes::run_case(mode, seed, true);
             json!({"trace": log})
         }
         _ => return None,
@@ -358,6 +419,7 @@ pub fn write_replay(engine: &str, mode: &str, seed: u64, prop: &str, r: &CaseRes
 pub fn replay_case(engine: &str, doc: &Value) -> (CaseResult, Vec<String>) {
     match engine {
         "prim" => crate::prim::run_case(doc["mode"].as_str().unwrap_or(""), doc["seed"].as_u64().unwrap_or(0), true),
+        "pipe" => crate::pipes::run_case(doc["mode"].as_str().unwrap_or(""), doc["seed"].as_u64().unwrap_or(0), true),
         "bft" => {
             let cfg: bft::Cfg = serde_json::from_value(doc["case"]["cfg"].clone()).expect("cfg");
             let plan: Vec<bft::Action> = serde_json::from_value(doc["case"]["plan"].clone()).expect("plan");
